@@ -379,7 +379,7 @@ def shard_run(arg):
 
 def run(tier, seed, work):
     res = vp.Result("C07", tier, seed, "exploration")
-    n = 2400 if tier == "quick" else 36000
+    n = 16000 if tier == "quick" else 120000
     for d in vp.pmap(shard_run, [(seed, s, work) for s in vp.split(range(n), vp.NCPU)]):
         res.merge(d)
     res.rule = ("evaluations = documents written by libcnb and read by tomllib + a spec reader. distinct_nontrivial = distinct (document type, optional parts present, "
